@@ -270,8 +270,128 @@ theorem fired_event_not_skipped (rx : Nat → Val → Bool) (rules : List Rule) 
       ∀ m, m ∈ l.map (·.name) ↔ Spec.fires rx (Root.build rules).indexed sc.isAllowed ev m :=
   fired_event_not_skipped_of_law (leafLaw rx) rules hwf sc hist ev n hf
 
+/-! ### which rules run: the execution loop with `failOnFirstError` and failing actions -/
+
+/-- `ProcessEvent` calls the actions of a prefix of a duplicate-free list `l` whose name set is exactly
+    `Spec.fires`: all of `l` when the flag is off or no action of `l` returns an error, otherwise the rules
+    up to and including the first one whose action fails. (The order of `l` — ascending priority — is C10's.) -/
+theorem processEvent_runs (rx : Nat → Val → Bool) (rules : List Rule) (hwf : ∀ r ∈ rules, r.WF)
+    (sc : Scope) (ev : Event) (failFirst : Bool) (fails : Rule → Bool) :
+    ∃ l, processEvent rx (Root.build rules) sc ev = .ok l ∧ (l.map (·.name)).Nodup ∧
+      (∀ n, n ∈ l.map (·.name) ↔ Spec.fires rx (Root.build rules).indexed sc.isAllowed ev n) ∧
+      runRules failFirst fails l <+: l ∧
+      ((failFirst = false ∨ ∀ r ∈ l, fails r = false) → runRules failFirst fails l = l) ∧
+      (failFirst = true → runRules failFirst fails l =
+        l.takeWhile (fun r => !fails r) ++ (l.dropWhile (fun r => !fails r)).take 1) := by
+  obtain ⟨l, h1, h2, h3⟩ := processEvent_exact rx rules hwf sc ev
+  refine ⟨l, h1, h2, h3, runRules_prefix _ _ _, ?_, ?_⟩
+  · rintro (h | h)
+    · subst h; exact runRules_off _ _
+    · exact runRules_noerr _ _ _ h
+  · intro h; subst h; exact runRules_on _ _
+
+
+/-- The same with the scope written out: for a cascade scope built by any sequence of definitions, a
+    scope path is allowed iff the last definition of its longest defined prefix says so. -/
+theorem processEvent_exact_scope (rx : Nat → Val → Bool) (rules : List Rule) (hwf : ∀ r ∈ rules, r.WF)
+    (defs : List (List Seg × Bool)) (ev : Event) :
+    ∃ l, processEvent rx (Root.build rules) (Scope.build defs) ev = .ok l ∧ (l.map (·.name)).Nodup ∧
+      ∀ n, n ∈ l.map (·.name) ↔ Spec.fires rx (Root.build rules).indexed
+        (fun p => (Spec.longest (Spec.lastDef defs) p).getD false) ev n := by
+  have h := processEvent_exact rx rules hwf (Scope.build defs) ev
+  have he : (Scope.build defs).isAllowed = fun p => (Spec.longest (Spec.lastDef defs) p).getD false :=
+    funext fun p => scope_longest_prefix defs p
+  rw [he] at h
+  exact h
+
+/-! ### rules added between events -/
+
+theorem step_inv (rx : Nat → Val → Bool) (p : Proc) (op : Op) (h : CacheOK p) : CacheOK (p.step rx op) := by
+  cases op with
+  | addRule r => intro k b hk; simp [Proc.step, Proc.addRule, alookup] at hk
+  | addEvent sc ev => exact (addEvent_inv rx p sc ev h).2
+  | reset => intro k b hk; simp [Proc.step, Proc.reset, alookup] at hk
+
+theorem run_inv (rx : Nat → Val → Bool) (ops : List Op) : ∀ (p : Proc) (acc : List Rule), CacheOK p →
+    p.root = Root.build acc →
+    CacheOK (p.run rx ops) ∧ (p.run rx ops).root = Root.build (ops.foldl (fun acc op =>
+      match op with | .addRule r => acc ++ [r] | .addEvent _ _ => acc | .reset => []) acc) := by
+  induction ops with
+  | nil => intro p acc h hr; exact ⟨h, hr⟩
+  | cons op rest ih =>
+    intro p acc h hr
+    simp only [Proc.run, List.foldl_cons]
+    cases op with
+    | addRule r =>
+      exact ih _ _ (step_inv rx p (.addRule r) h) (by simp [Proc.step, Proc.addRule, hr, Root.build, List.foldl_append])
+    | addEvent sc ev =>
+      exact ih _ _ (step_inv rx p (.addEvent sc ev) h) (by simp [Proc.step, (addEvent_inv rx p sc ev h).1, hr])
+    | reset =>
+      exact ih _ _ (step_inv rx p .reset h) (by simp [Proc.step, Proc.reset, Root.build])
+
+/-- After ANY history — events (each with the scope of its own cascade), `AddRule` calls (the processor
+    having been finished in between) and `Reset`s in any interleaving — the cached pre-check answers what
+    the index of the rules added since the last reset answers. -/
+theorem cache_sound_ops (rx : Nat → Val → Bool) (ops : List Op) (ev : Event) :
+    ((({ root := {} } : Proc).run rx ops).isTriggering ev).1 = (Root.build (Op.rules ops)).isTriggering ev := by
+  have h0 : CacheOK ({ root := {} } : Proc) := by intro k b hk; simp [alookup] at hk
+  have h := run_inv rx ops _ [] h0 (by simp [Root.build])
+  have := (isTriggering_spec _ ev h.1).1
+  rw [this, h.2]; rfl
+
+/-- ... and an event for which `Spec.fires` (over the rules present at that moment) is non-empty is never
+    skipped and runs exactly `Spec.fires`. -/
+theorem fired_event_not_skipped_ops (rx : Nat → Val → Bool) (ops : List Op) (hwf : ∀ r ∈ Op.rules ops, r.WF)
+    (sc : Scope) (ev : Event) (n : String)
+    (hf : Spec.fires rx (Root.build (Op.rules ops)).indexed sc.isAllowed ev n) :
+    ∃ l, ((({ root := {} } : Proc).run rx ops).addEvent rx sc ev).1 = some (.ok l) ∧
+      (l.map (·.name)).Nodup ∧
+      ∀ m, m ∈ l.map (·.name) ↔ Spec.fires rx (Root.build (Op.rules ops)).indexed sc.isAllowed ev m := by
+  have h0 : CacheOK ({ root := {} } : Proc) := by intro k b hk; simp [alookup] at hk
+  have h := run_inv rx ops _ [] h0 (by simp [Root.build])
+  have hroot : (({ root := {} } : Proc).run rx ops).root = Root.build (Op.rules ops) := h.2
+  obtain ⟨l, hp, hnd, hex⟩ := fired_event_not_skipped rx (Op.rules ops) hwf sc [] ev n hf
+  refine ⟨l, ?_, hnd, hex⟩
+  have hs := isTriggering_spec _ ev h.1
+  simp only [Proc.after, List.foldl_nil] at hp
+  unfold Proc.addEvent at hp ⊢
+  simp only at hp ⊢
+  rw [hs.1, hs.2.1, hroot]
+  have h0' : CacheOK ({ root := Root.build (Op.rules ops) } : Proc) := by intro k b hk; simp [alookup] at hk
+  have hs' := isTriggering_spec ({ root := Root.build (Op.rules ops) } : Proc) ev h0'
+  rw [hs'.1, hs'.2.1] at hp
+  by_cases hc : (Root.build (Op.rules ops)).isTriggering ev = true
+  · simp only [hc, if_true] at hp ⊢; exact hp
+  · simp only [hc] at hp; simp at hp
+
+/-! ### Go's random iteration order over `keyMap` and `bitsRegexes` -/
+
+/-- A state leaf answers the same whatever the order of its key matchers (Go ranges over a map; the early
+    exit when no bit is left does not change the result). -/
+theorem stateMatch_perm (rx : Nat → Val → Bool) (ev : Event) {rules keys keys'} (h : LeafInv rules keys)
+    (hp : keys.Perm keys') :
+    stateMatch rx ev rules keys' = .ok (rules.filter (Spec.stateOK rx · ev)) :=
+  LeafInv.sem rx ev rules keys' (h.perm hp)
+
+/-- ... and a key matcher answers the same whatever the order of its regex entries. -/
+theorem kmMatch_regex_order {P km} (h : KMOK P km) {es : List (W × Nat)} (hp : km.bitsRegexes.Perm es)
+    (rx : Nat → Val → Bool) (cur : W) (v : Val) :
+    kmMatch rx { km with bitsRegexes := es } cur v = kmMatch rx km cur v := kmMatch_permRx h hp rx cur v
+
+/-! ### the rule set and the executable specification -/
+
+/-- The rules that enter the index are exactly those `AddRule` accepts one after the other: the first rule
+    of each name, unless it (or an earlier refused rule of that name) lacks a kind or scope match. -/
+theorem indexed_characterised (rules : List Rule) : (Root.build rules).indexed = Spec.accepted rules [] :=
+  Root.indexed_accepted rules
+
+/-- The list the driver cross-checks the model against is `Spec.fires`. -/
+theorem firesList_iff (rx : Nat → Val → Bool) (rules : List Rule) (allowed : List Seg → Bool) (ev : Event) (n : String) :
+    n ∈ Spec.firesList rx rules allowed ev ↔ Spec.fires rx rules allowed ev n := mem_firesList rx rules allowed ev n
+
 /-- Distinct names and non-empty kind matches: every rule of the list is indexed. -/
-theorem indexed_all (rules : List Rule) (hn : (rules.map (·.name)).Nodup) (hk : ∀ r ∈ rules, r.kinds ≠ []) :
+theorem indexed_all (rules : List Rule) (hn : (rules.map (·.name)).Nodup)
+    (hk : ∀ r ∈ rules, r.kinds ≠ [] ∧ r.scopeNil = false) :
     (Root.build rules).indexed = rules := Root.indexed_eq rules hn hk
 
 /-- The indexed rules always have distinct names and come from the list. -/
@@ -292,6 +412,8 @@ example : (Root.build [rA, rS, rT]).matchEv (fun _ _ => false) eAB = .ok [rA, rA
 example : Spec.matchCount (fun _ _ => true) [rA, rS, rT] eAB rA = 2 := by decide
 example : triggering (Scope.build [([], true), (["p"], false)]) [rA, rA, rS, rT] [] = [rA, rS] := by decide
 example : executing [rA, rS] = [rS] := by decide
+example : runRules true (fun r => r.name == "s") [rA, rS, rT] = [rA, rS] := by decide
+example : runRules false (fun r => r.name == "s") [rA, rS, rT] = [rA, rS, rT] := by decide
 example : rA.WF ∧ rS.WF ∧ rT.WF := by simp [Rule.WF, rA, rS, rT]
 /-- the hypothesis of `fired_event_not_skipped` is satisfiable: `s` fires (and suppresses `r`) -/
 example : Spec.fires (fun _ _ => true) [rA, rS, rT] (fun _ => true) eAB "s" ∧
